@@ -1,8 +1,20 @@
 """C14 -- lifecycle family; see harness/props/_life.py (co-simulation of coq/theories/Life/Model.v
-against the real Nextline + scenario families + the C14 oracle of harness/life_oracles.py)."""
+against the real Nextline + scenario families + the C14 oracle of harness/life_oracles.py).
+
+In addition the composer part of the model is tied to the source by translation: translate/arg_composer.py
+regenerates Gen/ArgComposer.v (RunArgComposer.init/start/reset/compose_run_arg, RunNoCounter, the option records
+and their defaults, the option records built by Nextline(...)/Nextline.reset(...), what the registrars publish)
+on every run, and Life/ArgTie.v proves the model's functions equal to the transcribed ones for every state and
+every option record (theorems C14_tie_* of Props/C14.v)."""
 from . import _life
 
 PROP_FILES = ['Props/C14.v']
-TRUSTED_BASE = _life.TRUSTED_BASE
+TRANSLATORS = ['arg_composer']      # Gen/ArgComposer.v, obligations in Life/ArgTie.v
+TRUSTED_BASE = _life.TRUSTED_BASE + [
+    'translate/arg_composer.py (ast -> Gallina transcription, fail-closed): its rendering of Python expressions '
+    '(is None / is not None with narrowing, value semantics of or/and, conditional expressions, walrus, ==), of `if` statements '
+    '(continuations), of an awaited hook call (suspension with a continuation) and of itertools.count / NewType; a statement is '
+    'an opaque id (its truth value is refused), isinstance(statement, str) is taken to be true (the model\'s statements are scripts)',
+]
 ASSUMPTIONS = _life.ASSUMPTIONS
 correspond, search, replay = _life.make('C14')
